@@ -1564,7 +1564,8 @@ MANIFEST = {
             "verbatim URI/args/kwargs/options, the addressed future completes exactly once with its "
             "own reply content, no other future changes, progressive results reach only their own "
             "handler, unmatched replies raise ProtocolError and leave the state digest unchanged."
-            " Also: requests of every kind the application gave up on (cancelled result) x late replies, progressive results under a payload codec (decodable / undecodable / URI-mismatching chunks never complete the call), exception classes define()d on one session never surfacing in another session.",
+            " Also: requests of every kind the application gave up on (cancelled result) x late replies, progressive results under a payload codec (decodable / undecodable / URI-mismatching chunks never complete the call), exception classes define()d on one session never surfacing in another session."
+            " Also: requests whose message the transport refuses (nothing stays pending; found C04-F3) and every Register / Subscribe option alone.",
     "note": "Trusted: ref/wamp_session.py, harness/wamp_l1.py (scripted ITransport), the message "
             "classes' marshal() for reading the sent messages. Payload values are representatives; "
             "states are merged on a snapshot that omits completed futures' contents (checked at "
